@@ -528,7 +528,9 @@ def main(ctx):
     geo_params = [()]
     for flat in ("unset", True, False):
         for okv in ("unset", None, 0.0, 0, 0.1, -0.1, 0.5, -0.5):
-            for olv in ("unset", 0.7, 0.55):
+            # omega_l far from, equal to and a hair off the flat complement 1-omega_m ("c": 4e-7, 1e-9 and one ulp away):
+            # a rule applied only when the inputs are "inconsistent enough" keeps the caller's value there
+            for olv in ("unset", 0.7, 0.55, "c+4e-7", "c-4e-7", "c+1e-9", "c+ulp", "c-ulp"):
                 g = []
                 if flat != "unset":
                     g.append(("flat", flat))
@@ -544,6 +546,11 @@ def main(ctx):
             for g in geo_params:
                 kw = dict(hs)
                 kw.update(dict(g))
+                if isinstance(kw.get("omega_l"), str):
+                    comp = 1.0 - (0.3 if om == "unset" else om)
+                    sym = kw["omega_l"]
+                    kw["omega_l"] = (float(np.nextafter(comp, 2.0)) if sym == "c+ulp" else float(np.nextafter(comp, -2.0)) if sym == "c-ulp"
+                                     else comp + float(sym[1:]))
                 if om != "unset":
                     kw["omega_m"] = om
                 kw = tuple(sorted(kw.items()))
